@@ -19,6 +19,7 @@ import (
 	"errors"
 	"fmt"
 	"io/fs"
+	"path"
 	"sort"
 	"strings"
 	"syscall"
@@ -68,7 +69,7 @@ func Walk(ctx context.Context, fileSystem fs.FS, prefix, delimiter, marker strin
 		}
 	}
 
-	err := fs.WalkDir(fileSystem, root, func(path string, d fs.DirEntry, err error) error {
+	err := walkDirKeyOrder(fileSystem, root, func(path string, d fs.DirEntry, err error) error {
 		if err != nil {
 			return err
 		}
@@ -285,6 +286,65 @@ func Walk(ctx context.Context, fileSystem fs.FS, prefix, delimiter, marker strin
 	}, nil
 }
 
+// walkDirKeyOrder is fs.WalkDir with one difference: the entries of a
+// directory are visited in the order of the object keys they stand for, i.e.
+// a directory sorts as its name followed by "/". fs.WalkDir sorts by plain
+// file name, which visits "a/b" before "a-b" and "a.txt" although these keys
+// sort after it, so listings were neither in key order nor consistent with
+// markers compared as strings.
+func walkDirKeyOrder(fsys fs.FS, root string, fn fs.WalkDirFunc) error {
+	info, err := fs.Stat(fsys, root)
+	if err != nil {
+		err = fn(root, nil, err)
+	} else {
+		err = walkDirKeyOrderRec(fsys, root, fs.FileInfoToDirEntry(info), fn)
+	}
+	if err == fs.SkipDir || err == fs.SkipAll {
+		return nil
+	}
+	return err
+}
+
+func walkDirKeyOrderRec(fsys fs.FS, name string, d fs.DirEntry, fn fs.WalkDirFunc) error {
+	if err := fn(name, d, nil); err != nil || !d.IsDir() {
+		if err == fs.SkipDir && d.IsDir() {
+			// Successfully skipped directory.
+			err = nil
+		}
+		return err
+	}
+
+	ents, err := fs.ReadDir(fsys, name)
+	if err != nil {
+		// Second call, to report ReadDir error.
+		err = fn(name, d, err)
+		if err != nil {
+			if err == fs.SkipDir && d.IsDir() {
+				err = nil
+			}
+			return err
+		}
+	}
+
+	keyName := func(e fs.DirEntry) string {
+		if e.IsDir() {
+			return e.Name() + "/"
+		}
+		return e.Name()
+	}
+	sort.Slice(ents, func(i, j int) bool { return keyName(ents[i]) < keyName(ents[j]) })
+
+	for _, e := range ents {
+		if err := walkDirKeyOrderRec(fsys, path.Join(name, e.Name()), e, fn); err != nil {
+			if err == fs.SkipDir {
+				break
+			}
+			return err
+		}
+	}
+	return nil
+}
+
 func contains(a string, strs []string) bool {
 	for _, s := range strs {
 		if s == a {
@@ -329,7 +389,7 @@ func WalkVersions(ctx context.Context, fileSystem fs.FS, prefix, delimiter, keyM
 
 	pastVersionIdMarker := versionIdMarker == ""
 
-	err := fs.WalkDir(fileSystem, ".", func(path string, d fs.DirEntry, err error) error {
+	err := walkDirKeyOrder(fileSystem, ".", func(path string, d fs.DirEntry, err error) error {
 		if err != nil {
 			return err
 		}
